@@ -115,7 +115,11 @@ func t1Scenario(withVerify bool) func() instance { return t1ScenarioH(withVerify
 
 // t1ScenarioH with history: the shared issuer has already turned away a malformed request and
 // served an honest one (sequentially, by the controller) before the concurrent calls start.
-func t1ScenarioH(withVerify, history bool) func() instance {
+func t1ScenarioH(withVerify, history bool) func() instance { return t1ScenarioK(withVerify, history, false) }
+
+// t1ScenarioK with usedKey: the owner has used the key object (asked for its public key and
+// serialised it) before handing it to the issuer, and goes on holding it.
+func t1ScenarioK(withVerify, history, usedKey bool) func() instance {
 	return func() instance {
 		kb := px.OPRFKeyBytes(oprf.SuiteP384, 0)
 		ref := px.NewW1FromBytes(kb) // reference world (its own key object)
@@ -133,7 +137,13 @@ func t1ScenarioH(withVerify, history bool) func() instance {
 		tok, err := type1.UnmarshalPrivateToken(refOut.Tokens[0])
 		must(err)
 		// the shared object: a FRESH issuer over a fresh key object built from bytes
-		iss := type1.NewBasicPrivateIssuer(px.OPRFKeyFromBytes(oprf.SuiteP384, kb))
+		key := px.OPRFKeyFromBytes(oprf.SuiteP384, kb)
+		if usedKey {
+			if _, err := key.Public().MarshalBinary(); err != nil {
+				panic(err)
+			}
+		}
+		iss := type1.NewBasicPrivateIssuer(key)
 		if history {
 			bad := &type1.BasicPrivateTokenRequest{TokenKeyID: ref.KeyID[31], BlindedReq: append([]byte{0x02}, bytes.Repeat([]byte{0xff}, 48)...)}
 			if _, err := iss.Evaluate(bad); err == nil {
@@ -1037,6 +1047,8 @@ var scenarios = []scenario{
 	{"ed25519-unblind-unblind-blindpublickey", ed25519Scenario(3)},
 	{"batch-two-issuers-per-type", batchScenario2},
 	{"type1-evaluate-evaluate-tokenkeyid-on-an-issuer-with-a-history", t1ScenarioH(false, true)},
+	{"type1-evaluate-evaluate-tokenkeyid-key-used-by-its-owner-before", t1ScenarioK(false, false, true)},
+	{"type1-evaluate-verify-tokenkey-key-used-by-its-owner-before", t1ScenarioK(true, false, true)},
 	{"type5-evaluate-evaluate-tokenkeyid-on-an-issuer-with-a-history", t5ScenarioH(false, true)},
 	{"type2-evaluate-evaluate-tokenkeyid-on-an-issuer-with-a-history", t2ScenarioHist},
 	{"ecdsa-two-blinding-keys-two-contexts", ecdsaScenario(2)},
